@@ -261,6 +261,12 @@ def random_case(rng):
         opts["media_video"] = True
     if rng.random() < 0.3:
         opts["stale_hidden"] = True       # missing nodes keep stale coordinates, flagged not visible
+    if rng.random() < 0.35 and not opts.get("two_videos"):      # (the second embedded video is a stand-in that cannot be copied: it is never opened)
+        opts["separate_files"] = True     # predictions loaded from another file: equal but distinct Video objects, other video order
+    if rng.random() < 0.3:
+        opts["sparse_frames"] = True      # frame numbers 5, 8, 11, ... (labels, not positions)
+    if rng.random() < 0.3:
+        opts["pr_order"] = rng.randint(1, 10 ** 6)      # the prediction file lists its frames in another order
     return new_case(frames, N, opts, tag=mode + ("-ties" if ties else ""))
 
 
